@@ -85,7 +85,7 @@ Proof.
       repeat split; auto; try lia. left. split; [reflexivity|]. unfold lenZ in *; cbn in *; lia.
     + destruct (fb_append_spec (mkfbuf KTmp newfile 0) (x :: sb) (fb_inv_fresh KTmp))
         as (b' & Ha & Hi' & Habs & Hk & Hp & Hc & Hr).
-      cbn [ob_strbuf]. rewrite Ha. do 2 eexists; split; [reflexivity|].
+      cbn [ob_strbuf is_create_write]. rewrite Ha. do 2 eexists; split; [reflexivity|].
       unfold inv, abs. cbn [ob_buf ob_strbuf ob_overflowed]. rewrite Hk. cbn [fb_kind].
       split; [reflexivity|]. split; [|split].
       * repeat split; auto; apply Hi'.
@@ -96,7 +96,7 @@ Proof.
       repeat split; auto; try lia; try discriminate. right. split; [reflexivity|]. unfold lenZ in *; cbn in *; lia.
     + destruct (fb_append_spec (mkfbuf KBio newfile 0) (x :: sb) (fb_inv_fresh KBio))
         as (b' & Ha & Hi' & Habs & Hk & Hp & Hc & Hr).
-      cbn [ob_strbuf]. rewrite Ha. do 2 eexists; split; [reflexivity|].
+      cbn [ob_strbuf is_create_write]. rewrite Ha. do 2 eexists; split; [reflexivity|].
       unfold inv, abs. cbn [ob_buf ob_strbuf ob_overflowed]. rewrite Hk. cbn [fb_kind].
       split; [reflexivity|]. split; [|split].
       * repeat split; auto; try discriminate; apply Hi'.
@@ -114,7 +114,7 @@ Proof.
   intros Hi Hb. assert (Habs0 : abs o = fb_abs b) by (unfold abs; now rewrite Hb).
   rewrite Habs0. inv_some Hi Hb.
   destruct (fb_append_spec b s Hfb) as (b' & Ha & Hi' & Habs & Hk' & Hp & Hc & Hr).
-  unfold o_append_tail. rewrite Ha. cbn [ob_overflowed ob_strbuf].
+  unfold o_append_tail. cbn [is_append_write]. rewrite Ha. cbn [ob_overflowed ob_strbuf].
   destruct (ob_overflowed o) eqn:Eo; cbn [negb].
   - eexists; split; [reflexivity|]. unfold inv, abs; cbn [ob_buf ob_strbuf ob_overflowed].
     rewrite Hk'. repeat split; auto; try apply Hi'; try apply Hov; try discriminate.
@@ -484,7 +484,7 @@ Lemma thr_append_tail limit ovf s o b : inv o -> ob_buf o = Some b ->
 Proof.
   intros Hi Hb. inv_some Hi Hb.
   destruct (fb_append_spec b s Hfb) as (b' & Ha & Hi' & Habs & Hk' & Hp & Hc & Hr).
-  unfold o_append_tail. rewrite Ha. cbn [ob_overflowed ob_strbuf].
+  unfold o_append_tail. cbn [is_append_write]. rewrite Ha. cbn [ob_overflowed ob_strbuf].
   destruct (ob_overflowed o) eqn:Eo; cbn [negb].
   - cbn [fst]. unfold inv_thr. cbn [ob_buf]. intro Hkb. rewrite Hk' in Hkb.
     assert (fb_kind b = KTmp) by now apply Hov. congruence.
